@@ -3,6 +3,7 @@ package region
 import (
 	"context"
 	"net"
+	"time"
 )
 
 // C20 (region level) — however many goroutines call Dial on a region client concurrently, the
@@ -42,4 +43,58 @@ func VerifDialOnce() {
 	verifQuiesce()
 	verifAssert(verifGoroutines() == 0, "no goroutine is left after Close")
 	verifReach("dialled")
+}
+
+// VerifDialIdle (C18): a connection dialled with a context that has a deadline and then left
+// idle carries no read deadline and no write deadline once Dial has returned - nothing is
+// outstanding, so no timer may tear it down.
+func VerifDialIdle() {
+	conn := &vConn{readStall: make(chan struct{})}
+	dialer := func(ctx context.Context, network, addr string) (net.Conn, error) { return conn, nil }
+	rc := NewClient("rs:1", RegionClient, 2, 0, "user", 0, nil, dialer, vLogger())
+	ctx := context.Background()
+	cancel := func() {}
+	if verifBool() {
+		ctx, cancel = context.WithTimeout(ctx, time.Hour)
+		verifReach("dial-deadline")
+	}
+	err := rc.Dial(ctx)
+	cancel()
+	verifAssert(err == nil, "the dial succeeds")
+	verifQuiesce()
+	verifAssert(!conn.armed, "an idle connection has no read deadline armed")
+	verifAssert(!conn.wArmed, "the handshake's write deadline does not outlive the handshake")
+	verifAssert(conn.closed == 0, "the idle connection is open")
+	rc.Close()
+	verifQuiesce()
+	verifReach("idle-after-dial")
+}
+
+// VerifDialLate (C20): the dial context has a deadline and the dialer is slow (it may return its
+// connection after the deadline has passed, as a dialer that does not watch the context does).
+// Whatever Dial makes of that, a connection the dialer handed out is not left open behind a
+// region client that has been closed: otherwise the replacement client's connection is the
+// second open connection to that server.
+func VerifDialLate() {
+	conn := &vConn{readStall: make(chan struct{})}
+	handed := false
+	dialer := func(ctx context.Context, network, addr string) (net.Conn, error) {
+		verifYield()
+		if verifNative() {
+			time.Sleep(30 * time.Millisecond)
+		}
+		handed = true
+		return conn, nil
+	}
+	rc := NewClient("rs:1", RegionClient, 2, 0, "user", 0, nil, dialer, vLogger())
+	ctx, cancel := context.WithTimeout(context.Background(), 5*time.Millisecond)
+	err := rc.Dial(ctx)
+	cancel()
+	verifObserveBool("dial-failed", err != nil)
+	rc.Close()
+	verifQuiesce()
+	verifAssert(handed, "the dialer has returned")
+	verifAssert(conn.closed > 0, "the connection the dialer handed out is closed together with its region client")
+	verifAssert(verifGoroutines() == 0, "no goroutine is left after Close")
+	verifReach("late-dial")
 }
